@@ -19,6 +19,7 @@ Good(e) ==
                             u.table = e.q.table /\ u.sets = e.q.sets /\ Equivalent(u.cond, NormE(Fold(e.q.cond)))
     [] e.kind = "delete" -> LET d == ParseDelete(e.toks) IN
                             d.table = e.q.table /\ Equivalent(d.cond, NormE(Fold(e.q.cond)))
+    [] e.kind = "lex"    -> FALSE     \* the text is not a sequence of the grammar's tokens at all
 Init == l = 1
 Next == /\ l <= Len(Rec) /\ l' = l + 1
         /\ (Good(Rec[l]) \/ PrintT(<<"STEP-REJECTED", l, Rec[l].kind>>))
